@@ -127,10 +127,14 @@ def py_script(inp, cfg):
     return var, inp.get("script_prefix", "") + "\n".join(lines) + "\n"
 
 
-def run_cli(ctx, script, inp, ci, cfg):
-    d = os.path.join(ctx.tmp, "run_%s_%d" % (inp["id"], ci))
-    os.makedirs(d)
+def run_cli(ctx, script, inp, ci, cfg, outdir=None, prepare=None):
+    """outdir: reuse the directory (and so the output path) of an earlier run; prepare(outp): put the output path
+    into a given state before the run"""
+    d = outdir or os.path.join(ctx.tmp, "run_%s_%s" % (inp["id"], ci))
+    os.makedirs(d, exist_ok=True)
     outp = os.path.join(d, "out.c")
+    if prepare:
+        prepare(outp)
     argv = [script] if cfg["inv"] == "script" else [core.PY, "-m", "cffi.gen_src"]
     if cfg["sub"] == "read-sources":
         cdef_p, csrc_p = os.path.join(d, "in.cdef.txt"), os.path.join(d, "in.csrc.c")
@@ -155,7 +159,7 @@ def run_cli(ctx, script, inp, ci, cfg):
             with open(outp, "rb") as f:
                 data = f.read()
             wrote = True
-        except FileNotFoundError:
+        except (FileNotFoundError, IsADirectoryError):
             data, wrote = b"", False
         extra = r.stdout
     else:
@@ -164,7 +168,7 @@ def run_cli(ctx, script, inp, ci, cfg):
     # classify one specific way of differing: an extra first line "generating <... object at 0x...>"
     m = re.match(rb"generating <[^>\n]*>\n", data)
     stripped = hashlib.sha256(data[m.end():]).hexdigest() if m else None
-    return {"status": r.returncode, "digest": hashlib.sha256(data).hexdigest(), "len": len(data), "wrote": wrote,
+    return {"status": r.returncode, "digest": hashlib.sha256(data).hexdigest(), "len": len(data), "wrote": wrote, "dir": d,
             "digest_without_generating_line": stripped, "head": data[:80].decode("utf-8", "replace"),
             "stderr": r.stderr[-600:].decode("utf-8", "replace"), "argv": argv, "noise": len(extra)}
 
@@ -197,6 +201,43 @@ def validate(ctx, recs):
     if len(chk) != 1 or int(chk[0][0]) != len(recs) or int(chk[0][1]) != nobs:
         raise core.MachineryError("Trace_GenSrc did not check all records:\n" + r.out[-1500:])
     return [(int(k) - 1, core.unq(w), int(i) - 1) for k, w, i in core.tla_tuples(r.out, "VERDICT")]
+
+
+def prestate_jobs(ctx, script, rng, prestates, configs, nsets):
+    """the output path in every state of GenSrc!PreStates before the run, for both sub-commands and both invocations;
+    "identical" / "longer" / "shorter" are produced by an earlier CLI run into the SAME path (same / bigger / smaller cdef).
+    Returns a list of thunks, each giving [(input, cfg, prestate, observation), ...]"""
+    cfgs = [c for c in configs if c["out"] == "file" and c["binding"] == "object" and c["ffivar"] == "default"]
+    thunks = []
+    for n in range(nsets):
+        small = {"id": "ps%d" % n, "cdef": gen_cdef.gen(rng, 3, "api") + "int only_small_%d(void);\n" % n,
+                 "prelude": "/* pre-state %d */\n" % n, "modname": "_ps%d" % n}
+        big = dict(small, id="pb%d" % n, cdef=small["cdef"] + gen_cdef.gen(rng, 12, "api") + "typedef struct { long a[7]; } only_big_%d_t;\n" % n)
+        for pre in sorted(prestates):
+            for ci, cfg in enumerate(cfgs):
+                def thunk(pre=pre, cfg=cfg, ci=ci, n=n):
+                    tag = "%s_%d" % (pre, ci)
+                    out = []
+                    first, second = {"identical": (small, small), "longer": (big, small), "shorter": (small, big)}.get(pre, (None, small))
+                    prep = None
+                    if pre == "directory":
+                        prep = lambda p: os.mkdir(p)
+                    elif pre == "readonly":
+                        def prep(p):
+                            with open(p, "w") as f:
+                                f.write("/* read-only leftovers, longer than nothing */\n" * 2000)
+                            os.chmod(p, 0o444)
+                    outdir = None
+                    if first is not None:
+                        o1 = run_cli(ctx, script, first, tag + "a", cfg)
+                        out.append((first, cfg, "absent", o1))
+                        outdir = o1["dir"]
+                    o2 = run_cli(ctx, script, second, tag + "b", cfg, outdir=outdir, prepare=prep)
+                    o2["first"] = None if first is None else {x: first[x] for x in ("id", "cdef", "prelude", "modname")}
+                    out.append((second, cfg, pre, o2))
+                    return out
+                thunks.append(thunk)
+    return thunks, [small, big]
 
 
 QUICK_CFGS = [("read-sources", "script", "file", "object", "default"), ("read-sources", "module", "stdout", "object", "default"),
@@ -256,16 +297,36 @@ def run(ctx):
             if inp.get("script_prefix") and cfg["sub"] != "exec-python":
                 continue                       # a decoration of the build script does not apply to read-sources
             jobs.append((inp, ci, cfg))
+    prestates = matrix["prestates"]
+    if sorted(prestates) != ["absent", "directory", "identical", "longer", "readonly", "shorter"]:
+        raise core.MachineryError("pre-state space incomplete: %r" % (prestates,))
+    thunks, psinputs = prestate_jobs(ctx, script, rng, prestates, configs, 1 if quick else 4)
+    for x in psinputs:
+        ref = reference(x, ctx.tmp)
+        x["_ref"] = (ref[0], hashlib.sha256(ref[1]).hexdigest() if ref[0] == "ok" else ref[1],
+                     hashlib.sha256(ref[2]).hexdigest() if ref[0] == "ok" else "", len(ref[1]) if ref[0] == "ok" else 0)
+        if ref[0] != "ok":
+            raise core.MachineryError("pre-state input rejected by the reference: %s" % (ref[1],))
     with ThreadPoolExecutor(8) as pool:
+        psf = [pool.submit(t) for t in thunks]
         outs = list(pool.map(lambda j: run_cli(ctx, script, *j), jobs))
+        psouts = [x for f in psf for x in f.result()]
     byid = {}
     for (inp, ci, cfg), o in zip(jobs, outs):
+        o["pre"] = "absent"
         byid.setdefault(inp["id"], []).append((cfg, o))
         ctx.case((inp["id"], ci))
+    inputs = inputs + psinputs
+    for inp, cfg, pre, o in psouts:
+        o["pre"] = pre
+        byid.setdefault(inp["id"], []).append((cfg, o))
+        ctx.case((inp["id"], pre, cfg["sub"], cfg["inv"], len(byid[inp["id"]])))
+    ctx.cov["prestate_runs"] = len(psouts)
     recs = []
     for inp in inputs:
         recs.append({"id": inp["id"], "ok": inp["_ref"][0] == "ok", "ref": inp["_ref"][1], "ref2": inp["_ref"][2],
-                     "obs": [{"status": o["status"], "digest": o["digest"], "wrote": o["wrote"]} for _c, o in byid[inp["id"]]]})
+                     "obs": [{"status": o["status"], "digest": o["digest"], "wrote": o["wrote"],
+                              "mayfail": o["pre"] in ("directory", "readonly")} for _c, o in byid[inp["id"]]]})
     bad = validate(ctx, recs)
     inp_by = {inp["id"]: inp for inp in inputs}
     for k, what, i in bad:
@@ -283,6 +344,8 @@ def run(ctx):
             refs_tr = reference(dict(inp, id=inp["id"] + "t", cdef=translate_newlines(inp["cdef"]),
                                      prelude=translate_newlines(inp["prelude"])), ctx.tmp)
         key = classify(inp, cfg, what, o, refs_tr)
+        if o.get("pre", "absent") != "absent":
+            key += ":output-path-was-" + o["pre"]
         if what == "status":
             msg = "exit status %d although emit_c_code() succeeds; stderr: %s" % (o["status"], o["stderr"][-200:])
         elif what == "bytes":
@@ -293,8 +356,9 @@ def run(ctx):
                 o["len"], inp["_ref"][1])
         else:
             msg = "exit status %d but output was written (%d bytes)" % (o["status"], o["len"])
-        ctx.violation(key, "%s (%s; decoration %s)" % (msg, " ".join(os.path.basename(a) for a in o["argv"][:4]),
-                                                       inp.get("dec")), {"input": pub, "cfg": cfg})
+        ctx.violation(key, "%s (%s; decoration %s; output path before the run: %s)" % (
+            msg, " ".join(os.path.basename(a) for a in o["argv"][:4]), inp.get("dec"), o.get("pre", "absent")),
+                      {"input": pub, "cfg": cfg, "pre": o.get("pre", "absent"), "first": o.get("first")})
     ctx.validated(sum(len(x["obs"]) for x in recs))
     ctx.cov["reference_rejects"] = sum(1 for x in recs if not x["ok"])
     ctx.cov["decorations"] = len(decorations)
@@ -317,11 +381,11 @@ def run(ctx):
 
 
 def selftest(ctx):
-    rec = {"id": "x", "ok": True, "ref": "aa", "ref2": "aa", "obs": [{"status": 0, "digest": "aa", "wrote": True}] * 2}
+    rec = {"id": "x", "ok": True, "ref": "aa", "ref2": "aa", "obs": [{"status": 0, "digest": "aa", "wrote": True, "mayfail": False}] * 2}
     b1 = json.loads(json.dumps(rec)); b1["obs"][1]["digest"] = "ab"
     b2 = json.loads(json.dumps(rec)); b2["obs"][0]["status"] = 2
-    b3 = {"id": "y", "ok": False, "ref": "CDefError", "ref2": "", "obs": [{"status": 0, "digest": "aa", "wrote": True},
-                                                                         {"status": 1, "digest": "", "wrote": False}]}
+    b3 = {"id": "y", "ok": False, "ref": "CDefError", "ref2": "", "obs": [{"status": 0, "digest": "aa", "wrote": True, "mayfail": False},
+                                                                         {"status": 1, "digest": "", "wrote": False, "mayfail": False}]}
     bad = validate(ctx, [rec, b1, b2, b3])
     # and a real run whose prelude is changed behind the reference's back
     inp = {"id": "s", "cdef": "int f(int);", "prelude": "/* a */\n", "modname": "m"}
@@ -347,8 +411,21 @@ def replay(ctx, obj):
         if not same:
             ctx.violation(obj["key"], obj["what"], rp)
         return
-    o = run_cli(ctx, make_script(ctx), inp, 0, cfg)
-    if ref[0] == "ok":
+    script = make_script(ctx)
+    pre, outdir, prep = rp.get("pre", "absent"), None, None
+    if rp.get("first"):
+        outdir = run_cli(ctx, script, rp["first"], "first", cfg)["dir"]       # the earlier run into the same path
+    elif pre == "directory":
+        prep = lambda p: os.mkdir(p)
+    elif pre == "readonly":
+        def prep(p):
+            with open(p, "w") as f:
+                f.write("/* read-only leftovers */\n" * 2000)
+            os.chmod(p, 0o444)
+    o = run_cli(ctx, script, inp, 0, cfg, outdir=outdir, prepare=prep)
+    if ref[0] == "ok" and pre in ("directory", "readonly") and o["status"] != 0:
+        ok = True
+    elif ref[0] == "ok":
         ok = o["status"] == 0 and o["digest"] == hashlib.sha256(ref[1]).hexdigest()
     else:
         ok = o["status"] != 0 and not o["wrote"]
